@@ -13,6 +13,7 @@ import (
 	"math/big"
 	"os"
 	"testing"
+	"time"
 	"unsafe"
 )
 
@@ -133,15 +134,21 @@ func Float64(label string) float64 {
 
 func Param(name string) int { return doc.Params[name] }
 
+// Assume / Assert end the replay at once with a result line; this also works when the
+// harness code runs on a goroutine other than the one RunReplay was called on.
 func Assume(cond bool) {
 	if !cond {
-		panic(assumeFail{})
+		fmt.Println("VP-RESULT: assume-fail")
+		os.Stdout.Sync()
+		os.Exit(0)
 	}
 }
 
 func Assert(cond bool, label string) {
 	if !cond {
-		panic(assertFail{label})
+		fmt.Printf("VP-RESULT: assert-fail %s\n", label)
+		os.Stdout.Sync()
+		os.Exit(0)
 	}
 }
 
@@ -151,6 +158,9 @@ func Observe(label string, v any)     {}
 
 // CutBefore: under symgo the function about to call callee returns early; natively a no-op.
 func CutBefore(callee string) {}
+
+// Clock: nanoseconds of a clock that time.Sleep advances (virtual under symgo, real natively).
+func Clock() int64 { return time.Now().UnixNano() }
 
 // CutAt: under symgo the function reaching the (unique) source line containing pattern
 // returns there; natively a no-op.
